@@ -369,14 +369,60 @@ Proof. unfold usw_write. destruct c; [intros [= <- <- <-]; now left|].
   destruct inp as [|a t]; [intros [= <- <- <-]; now left|].
   destruct (Z.leb _ _); intros [= <- <- <-]; [right|left]; auto. Qed.
 
-(* ---- the UDP relay in front of the Stream interface (design finding F15) ------------- *)
-(* what the property demands of the relay: a datagram that fits one frame is forwarded whole *)
-Definition relay_full : Prop := forall d,
-  (0 < Z.of_nat (length d) <= max_unit 16401)%Z ->
-  route_udp_up (max_unit 16401) d = (Z.of_nat (length d), SwNil, [d]).
+(* ---- the UDP relays around the Stream interface (design finding F15) ------------------ *)
+Lemma firstn_len_min {A} n (l : list A) : length (firstn n l) = Nat.min n (length l).
+Proof. apply firstn_length. Qed.
 
-(* false: 8193 bytes fit a frame (16132) but not RouteUDP's read buffer *)
-Lemma relay_refuted : ~ relay_full.
+(* uplink, any buffer size: whole up to min(buffer, frame maximum) ... *)
+Lemma relay_up_whole bufsize maxu d :
+  (0 < N.of_nat (length d) <= bufsize)%N -> (Z.of_nat (length d) <= maxu)%Z ->
+  relay_up bufsize maxu d = (Z.of_nat (length d), SwNil, [d]).
+Proof. intros Hb Hm. unfold relay_up. rewrite firstn_all2 by lia. apply fitting_one_frame. lia. Qed.
+
+(* ... above a buffer that is not larger than a frame: exactly the first [bufsize] bytes go out as if
+   they were the datagram (what the code did before e32244c for 8193..16132 bytes) ... *)
+Lemma relay_up_cut bufsize maxu d : (0 < bufsize)%N -> (Z.of_N bufsize <= maxu)%Z ->
+  (bufsize < N.of_nat (length d))%N ->
+  relay_up bufsize maxu d = (Z.of_N bufsize, SwNil, [firstn (N.to_nat bufsize) d]).
+Proof.
+  intros H0 Hm Hd. unfold relay_up.
+  assert (Hl : length (firstn (N.to_nat bufsize) d) = N.to_nat bufsize) by (rewrite firstn_len_min; lia).
+  rewrite fitting_one_frame; rewrite Hl; [f_equal; f_equal; lia|lia].
+Qed.
+
+(* ... and with a buffer larger than a frame, a datagram above the frame maximum is refused *)
+Lemma relay_up_refuses bufsize maxu d : (0 <= maxu)%Z -> (maxu < Z.of_N bufsize)%Z ->
+  (maxu < Z.of_nat (length d))%Z ->
+  relay_up bufsize maxu d = (0%Z, SwShortBuffer, []).
+Proof.
+  intros H0 Hb Hd. unfold relay_up. apply oversize_refused; [|exact H0].
+  rewrite firstn_len_min. lia.
+Qed.
+
+Lemma max_unit_lt_relay_buf : (0 <= max_unit 16401 < Z.of_N relay_buf)%Z.
+Proof. vm_compute. split; [discriminate|reflexivity]. Qed.
+Lemma relay_buf_prefix_le_max_unit : (Z.of_N relay_buf_prefix <= max_unit 16401)%Z.
+Proof. vm_compute. discriminate. Qed.
+
+(* the property at the client relay, current code: every datagram that fits one frame is forwarded
+   whole, a larger one is refused *)
+Lemma relay_full d :
+  ((0 < Z.of_nat (length d) <= max_unit 16401)%Z ->
+     route_udp_up (max_unit 16401) d = (Z.of_nat (length d), SwNil, [d]))
+  /\ ((max_unit 16401 < Z.of_nat (length d))%Z ->
+     route_udp_up (max_unit 16401) d = (0%Z, SwShortBuffer, [])).
+Proof.
+  pose proof max_unit_lt_relay_buf as Hm. split; intros Hd.
+  - apply relay_up_whole; lia.
+  - apply relay_up_refuses; lia.
+Qed.
+
+(* the same statement was false of the code before the fix (8192-byte buffer) *)
+Definition relay_prefix_full : Prop := forall d,
+  (0 < Z.of_nat (length d) <= max_unit 16401)%Z ->
+  relay_up relay_buf_prefix (max_unit 16401) d = (Z.of_nat (length d), SwNil, [d]).
+
+Lemma relay_prefix_refuted : ~ relay_prefix_full.
 Proof.
   intros H. specialize (H (repeat 7%N (N.to_nat 8193))).
   rewrite repeat_length in H.
@@ -384,18 +430,53 @@ Proof.
   specialize (H Hl). vm_compute in H. discriminate H.
 Qed.
 
-(* what does hold: up to the relay buffer the datagram is forwarded whole; above it exactly its
-   first 8192 bytes are forwarded as if they were the datagram (never refused, never split) *)
-Lemma relay_partial maxu d : (Z.of_N relay_buf <= maxu)%Z ->
-  ((0 < N.of_nat (length d) <= relay_buf)%N ->
-     route_udp_up maxu d = (Z.of_nat (length d), SwNil, [d]))
-  /\ ((relay_buf < N.of_nat (length d))%N ->
-     route_udp_up maxu d = (Z.of_N relay_buf, SwNil, [firstn (N.to_nat relay_buf) d])).
+(* downlink: with room for the pending datagram the relay forwards it whole *)
+Lemma relay_down_whole bufsize p x rest : reachable p -> pending p = x :: rest ->
+  (N.of_nat (length x) <= bufsize)%N ->
+  exists p', relay_down bufsize p = (p', Some x) /\ pending p' = rest.
 Proof.
-  intros Hm. unfold route_udp_up. split; intros Hd.
-  - rewrite firstn_all2 by lia. apply fitting_one_frame. lia.
-  - assert (Hl : length (firstn (N.to_nat relay_buf) d) = N.to_nat relay_buf) by (apply firstn_length_le; lia).
-    rewrite fitting_one_frame; rewrite Hl; [f_equal; f_equal; lia|unfold relay_buf in *; lia].
+  intros Hre Hp Hx. pose proof (read_outcomes p (N.to_nat bufsize) Hre) as H. rewrite Hp in H.
+  destruct (Nat.ltb_spec (N.to_nat bufsize) (length x)); [lia|].
+  destruct H as (p' & Hr & Hp' & _). exists p'. unfold relay_down. rewrite Hr. now split.
+Qed.
+
+Lemma reachable_steps es : reachable (fst (steps dg_init es)).
+Proof. exists es, (snd (steps dg_init es)). now destruct (steps dg_init es). Qed.
+
+(* before the fix: an 8193-byte datagram from the peer (fits a frame) stopped the relay goroutine *)
+Lemma relay_down_prefix_refuted : exists p x,
+  reachable p /\ pending p = [x] /\ (Z.of_nat (length x) <= max_unit 16401)%Z
+  /\ relay_down relay_buf_prefix p = (p, None).
+Proof.
+  exists (fst (steps dg_init [Wr false (repeat 7%N (N.to_nat 8193))])), (repeat 7%N (N.to_nat 8193)).
+  split; [apply reachable_steps|]. split; [vm_compute; reflexivity|].
+  split; [rewrite repeat_length; vm_compute; discriminate|]. vm_compute. reflexivity.
+Qed.
+
+(* server side: Stream.ReadFrom on the proxy server's UDP socket *)
+Definition server_relay_full : Prop := forall d,
+  (max_unit 16401 < Z.of_nat (length d))%Z -> stream_read_from_dgram (max_unit 16401) d = [].
+
+Lemma nonnil_match {A} (l : list A) : l <> [] -> match l with [] => [] | a :: r => [a :: r] end = [l].
+Proof. destruct l; [contradiction|reflexivity]. Qed.
+
+Lemma server_relay_refuted : ~ server_relay_full.
+Proof.
+  intros H. specialize (H (repeat 7%N (N.to_nat 16133))). rewrite repeat_length in H.
+  assert (Hl : (max_unit 16401 < Z.of_nat (N.to_nat 16133))%Z) by (vm_compute; reflexivity).
+  specialize (H Hl). vm_compute in H. discriminate H.
+Qed.
+
+Lemma server_relay_partial maxu d : (0 < maxu)%Z ->
+  ((0 < Z.of_nat (length d) <= maxu)%Z -> stream_read_from_dgram maxu d = [d])
+  /\ ((maxu < Z.of_nat (length d))%Z ->
+       stream_read_from_dgram maxu d = [firstn (Z.to_nat maxu) d]
+       /\ Z.of_nat (length (firstn (Z.to_nat maxu) d)) = maxu).
+Proof.
+  intros H0. unfold stream_read_from_dgram. split; intros Hd.
+  - rewrite firstn_all2 by lia. apply nonnil_match. intros ->. cbn in Hd. lia.
+  - assert (Hl : length (firstn (Z.to_nat maxu) d) = Z.to_nat maxu) by (rewrite firstn_len_min; lia).
+    split; [|lia]. apply nonnil_match. intros E. rewrite E in Hl. cbn in Hl. lia.
 Qed.
 
 (* ---------------------------------------------------------------------------------- *)
